@@ -82,6 +82,18 @@ def run(ctx):
         rc_, o_, e = ctx.wait(p)
         if p.returncode != 0:
             raise Undecided("emit driver failed: " + (e or o_)[-800:])
+    # behaviour the environment can switch on: the same capture runs with every environment variable the source names, set
+    for vi, extra in enumerate(ctx.env_variants()):
+        sub = ctx.path("emit-scen-env.ndjson")
+        with open(sub, "w") as f:
+            for s_ in scen[:120]:
+                f.write(json.dumps(s_) + "\n")
+        out = ctx.path("emit-env-%d.ndjson" % vi)
+        p = ctx.spawn([drv, "emit", "-seed", str(ctx.seed + vi), "-scen", sub, "-out", out, "-shard", "0", "-shards", "1"], env=dict(ctx.env, **extra))
+        rc_, o_, e = ctx.wait(p)
+        if p.returncode != 0:
+            raise Undecided("emit driver failed under %s: %s" % (extra, (e or o_)[-800:]))
+        files.append(out)
     files = [f for f in files if os.path.getsize(f) > 0]
     verdicts = ctx.validate_many("EmitTrace", files)
     runs = sum(v["extra"]["runs"] for v in verdicts)
